@@ -466,6 +466,10 @@ def leaf_specs(tier, classes=None):
                       add(dict(op=op, grid=grid, batch=[], coord="tie", npts=6, kernel=kn, width=wl, param=prm, pts2=True))
                       add(dict(op=op, grid=grid, batch=[], coord="random", npts=4, kernel=kn, width=wl,
                                param=[prm] * len(grid), cdtype="f32"))
+                      # per-axis kernel parameters that differ between the axes
+                      pl = ([0, 2, 1] if kn == "spline" else [2.0, 8.0, 4.0])[:len(grid)]
+                      add(dict(op=op, grid=grid, batch=[], coord="tie", npts=5, kernel=kn, width=wl, param=pl))
+                      add(dict(op=op, grid=grid, batch=[], coord="random", npts=5, kernel=kn, width=3, param=pl[::-1]))
     # NUFFT / NUFFTAdjoint
     ngrids = [[4], [5], [1], [3, 4], [2, 2, 3]] if not T else [[4], [5], [1], [6], [3, 4], [4, 4], [1, 3], [2, 2, 3], [3, 2, 2]]
     for grid in ngrids:
@@ -517,7 +521,7 @@ def leaf_specs(tier, classes=None):
                     for op in ("Wavelet", "InverseWavelet"):
                         add(dict(op=op, shape=s, axes=None if ax is None else list(ax), wave=wv, level=lv))
     # ---- a band of larger 1-D (and a few 2-D) sizes: defects that only appear above a small size threshold
-    for n in (9, 12, 16):
+    for n in (9, 12, 13, 16, 17):
         for cen in (True, False):
             add(dict(op="FFT", shape=[n], axes=None, center=cen))
             add(dict(op="IFFT", shape=[n], axes=[-1], center=cen))
